@@ -1079,6 +1079,9 @@ class Exec:
         if isinstance(base, SObj):
             if attr in base.fields:
                 return base.fields[attr]
+            if base.cls == 'Opaque' and attr in ('top', 'metadata', 'node', 'triples', 'epidata'):
+                # a data attribute of an abstract object: some function of its state
+                return V(z3.Function('attr_' + attr, Val, Val)(as_val(base.fields['state'])))
             if base.cls == 'Graph' and attr == 'top':
                 return self.call_contract_method('penman.graph', 'Graph.top', base, ([], {}), node)
             return SFunc('bound', obj=base, name=attr)
